@@ -14,7 +14,9 @@ import (
 // lock, so no seam of the repository lets the simulator place a concurrent API reader there. The
 // build step therefore derives, from /repo's current file (never from a stored copy), a variant in
 // which every top-level statement of the listed functions is preceded by
-//     verifYield("<func>", <index>, <receiver>);
+//
+//	verifYield("<func>", <index>, <receiver>);
+//
 // on the same source line (line numbers of the code under test stay what they are). verifYield is
 // defined in the overlay accessor file of the package and does nothing unless the engine installs
 // VerifYieldHook. Statements executed while the function holds a lock it took itself are left alone
